@@ -131,7 +131,20 @@ class _ParticleFamily:
         b = self._parts(o2) if self._is_two(o2) else (o2,)
         return any(np.shares_memory(x, y) for x in a for y in b)
 
+    def par(self, o):
+        """parameter arrays of a particles object (charge, mass) in the model's order"""
+        if self.kind == 'particles' and hasattr(o, 'q'):
+            return [complex(v) for v in list(np.asarray(o.q).ravel()) + list(np.asarray(o.m).ravel())]
+        return []
+
+    def pshares(self, o1, o2):
+        if self.kind == 'particles' and hasattr(o1, 'q') and hasattr(o2, 'q'):
+            return bool(np.shares_memory(o1.q, o2.q) or np.shares_memory(o1.m, o2.m))
+        return False
+
     def supports(self, st):
+        if st[0] == 'setpar':
+            return self.kind == 'particles'
         if st[0] in ('comp', 'setall', 'setitem', 'ufunc', 'out', 'augscalar', 'stride'):
             return False
         if st[0] == 'scale' and st[3] == 'r':
@@ -156,6 +169,8 @@ class _ParticleFamily:
             v = env[x]
             v += env[st[2]]
             env[x] = v
+        elif op == 'setpar':
+            env[x].q[0] = 7
         elif op == 'abs':
             r = abs(env[x])
             if float(r) != float(st[2]):
@@ -166,7 +181,11 @@ class _ParticleFamily:
 def run_program(p, fam):
     F = _NumpyFamily(fam) if fam['kind'] == 'numpy' else _ParticleFamily(fam)
     prog, obs = p['prog'], p['obs']
+    if p.get('haspar') and fam['kind'] != 'particles':
+        return None  # programs of the parameter-array model describe the particles type only
     if not all(F.supports(st) for st in prog):
+        return None
+    if not p.get('haspar') and any(st[0] == 'setpar' for st in prog):
         return None
     env = F.initial()
     probs = []
@@ -182,6 +201,13 @@ def run_program(p, fam):
                 probs.append(f'after statement {k}: {x} has type {F.ty(o)}, expected {e["ty"]}')
             if F.val(o) != [complex(v) for v in e['val']]:
                 probs.append(f'after statement {k}: {x} = {F.val(o)}, expected {e["val"]}')
+            if p.get('haspar'):
+                if F.par(o) != [complex(v) for v in e['par']]:
+                    probs.append(f'after statement {k}: parameter arrays of {x} = {F.par(o)}, expected {e["par"]}')
+                for y in ('a', 'b', 'c'):
+                    if exp[y]['bound'] and y != x and F.pshares(o, env[y]) != (y in e['pshares']):
+                        probs.append(f'after statement {k}: parameter arrays of {x} and {y} {"share" if F.pshares(o, env[y]) else "do not share"} memory, '
+                                     f'expected {"sharing" if y in e["pshares"] else "independent storage"}')
             for y in ('a', 'b', 'c'):
                 if exp[y]['bound'] and y != x:
                     sh = F.shares(o, env[y])
